@@ -35,13 +35,14 @@ import (
 var c10Paths = []string{"kill-external", "poison-pill", "self-shutdown", "supervisor-stop", "parent-stop", "stop-by-parent", "passivation", "shutdown-from-watcher-turn"}
 
 type c10Watchee struct {
-	name   string
-	path   string // pid.Path().String(): what Terminated carries
-	kind   string // termination path
-	pid    *actor.PID
-	child  bool
-	passT  time.Duration
-	spawnT time.Duration
+	name    string
+	path    string // pid.Path().String(): what Terminated carries
+	kind    string // termination path
+	pid     *actor.PID
+	child   bool
+	passT   time.Duration
+	spawnT  time.Duration
+	restart bool // fails once and is restarted by its supervisor before the termination path is taken
 }
 
 type c10Op struct {
@@ -73,6 +74,12 @@ func c10Run(c *Ctx) {
 	nw := 1 + c.W.Draw(3)
 	nv := 1 + c.W.Draw(2)
 	sup := supervisor.NewSupervisor(supervisor.WithAnyErrorDirective(supervisor.StopDirective))
+	// watchees that first go through a supervised restart: ErrB restarts, ErrA (the supervisor-stop path) stops
+	// (a handler error ErrB restarts; a panic is a PanicError, which the default directives stop)
+	supRestart := supervisor.NewSupervisor(
+		supervisor.WithStrategy(supervisor.OneForOneStrategy),
+		supervisor.WithDirective(&ErrB{}, supervisor.RestartDirective),
+	)
 
 	_, ppid, err := s.Spawn("par", actor.WithLongLived())
 	if err != nil {
@@ -95,7 +102,17 @@ func c10Run(c *Ctx) {
 	for i := 0; i < nv; i++ {
 		v := &c10Watchee{name: fmt.Sprintf("v%d", i), kind: c10Paths[c.W.Draw(len(c10Paths))]}
 		mb := mbs[c.W.Draw(len(mbs))]
-		opts := append(mb.Opt(), actor.WithSupervisor(sup))
+		// A failed (suspended) watchee restarted by its supervisor is re-initialised and re-attached to
+		// the tree without a Shutdown: it has not terminated, nobody gets a Terminated, and whoever
+		// watched it before still watches it afterwards.
+		v.restart = v.kind != "passivation" && c.W.Draw(3) == 2
+		opts := mb.Opt()
+		if v.restart {
+			opts = append(opts, actor.WithSupervisor(supRestart))
+			c.Probe("watchee-with-supervised-restart")
+		} else {
+			opts = append(opts, actor.WithSupervisor(sup))
+		}
 		if v.kind == "passivation" {
 			v.passT = time.Duration(2+c.W.Draw(6)) * time.Millisecond
 			opts = append(opts, actor.WithPassivationStrategy(passivation.NewTimeBasedStrategy(v.passT)))
@@ -143,13 +160,15 @@ func c10Run(c *Ctx) {
 		}
 	}
 	type stopPlan struct {
-		wait int
-		n    int
-		d    time.Duration
+		rwait int // before the supervised restart: 0 none, 1 yields, 2 1ms, 3 3ms
+		rn    int
+		wait  int
+		n     int
+		d     time.Duration
 	}
 	stops := make([]stopPlan, nv)
 	for i := range stops {
-		stops[i] = stopPlan{wait: c.W.Draw(4), n: 1 + c.W.Draw(12), d: []time.Duration{0, time.Millisecond, 3 * time.Millisecond, 20 * time.Millisecond}[c.W.Draw(4)]}
+		stops[i] = stopPlan{rwait: c.W.Draw(4), rn: 1 + c.W.Draw(12), wait: c.W.Draw(4), n: 1 + c.W.Draw(12), d: []time.Duration{0, time.Millisecond, 3 * time.Millisecond, 20 * time.Millisecond}[c.W.Draw(4)]}
 	}
 	disturb := c.W.Draw(4) // 0,1 none; 2 watcher restart; 3 watcher kill
 	dw := c.W.Draw(nw)
@@ -222,6 +241,29 @@ func c10Run(c *Ctx) {
 	for i, v := range st.watchees {
 		sp := stops[i]
 		fns = append(fns, func() {
+			if v.restart {
+				switch sp.rwait {
+				case 1:
+					for k := 0; k < sp.rn; k++ {
+						Yield()
+					}
+				case 2:
+					Sleep(time.Millisecond)
+				case 3:
+					Sleep(3 * time.Millisecond)
+				}
+				c.Fault("watchee-supervised-restart")
+				s.Ev(Ev{Actor: v.name, Kind: "vrestart-issued"})
+				_ = s.Tell(v.pid, &Cmd{Tag: c.Seq(), From: 200 + i, Ops: []Op{{K: OpErr, N: 1}}})
+				p := s.Probes[v.name]
+				if WaitUntil(time.Millisecond, 2*time.Second, func() bool { return p.Inc >= 2 && v.pid.IsRunning() }) {
+					Sleep(time.Millisecond) // let restartSubtree finish re-attaching the node
+					s.Ev(Ev{Actor: v.name, Kind: "vrestart-done"})
+					c.Probe("watchee-restart-completed")
+				} else {
+					c.Probe("watchee-restart-timeout")
+				}
+			}
 			switch sp.wait {
 			case 0, 1:
 				for k := 0; k < sp.n; k++ {
@@ -393,7 +435,7 @@ func c10Finish(c *Ctx) {
 			if requested[e.Actor] || (v != nil && v.passT > 0 && e.T >= v.spawnT+v.passT) {
 				continue
 			}
-			c.Fail("stopped-without-request", st.lg.cause(), "PostStop of %s ran at #%d although no stop, restart or passivation of it was due (last stop request of the run: %s); goakt warnings/errors: %q; log tail up to there: %s", e.Actor, e.Seq, lastStop, st.lg.lines, c10Tail(evs, e.Seq, 24))
+			c.Fail("stopped-without-request", st.lg.cause(), "PostStop of %s ran at #%d although no stop, restart or passivation of it was due (last stop request of the run: %s); goakt warnings/errors: %q; log tail up to there: %s", e.Actor, e.Seq, lastStop, st.lg.lines, c10Tail(evs, min(len(evs)-1, e.Seq+30), 40))
 			return
 		}
 	}
@@ -501,7 +543,7 @@ func c10Finish(c *Ctx) {
 				rel = e.Actor == w
 			case "wdisturb-call", "wdisturb-ret":
 				rel = e.Actor == w
-			case "stop-issued", "poststop-enter", "poststop-exit":
+			case "stop-issued", "poststop-enter", "poststop-exit", "vrestart-issued", "vrestart-done", "prestart-exit":
 				rel = e.Actor == vn
 			case "sys-stop":
 				rel = true
